@@ -6,6 +6,7 @@ use crate::stats::{CaseOutcome, Stats};
 
 pub mod common;
 pub mod fault;
+pub mod fuzz;
 pub mod graph;
 pub mod history;
 pub mod inputs;
@@ -25,7 +26,7 @@ pub struct Ctx<'a> {
     pub cache: &'a mut common::Cache,
 }
 
-pub const CLAIMED: [&str; 11] = ["C02", "C03", "C04", "C05", "C06", "C07", "C08", "C09", "C10", "C11", "C17"];
+pub const CLAIMED: [&str; 12] = ["C02", "C03", "C04", "C05", "C06", "C07", "C08", "C09", "C10", "C11", "C17", "C18"];
 
 /// Number of cases for a property and tier.
 pub fn budget(prop: &str, tier: Tier) -> u64 {
@@ -35,6 +36,7 @@ pub fn budget(prop: &str, tier: Tier) -> u64 {
         "C08" => 5_000,
         "C04" => 6_000,
         "C11" => 20_000,
+        "C18" => 20_000,
         "C17" => 6_000,
         "C10" => 8_000,
         _ => 10_000,
@@ -51,6 +53,7 @@ pub fn gen_case(prop: &str, seed: u64, index: u64, tier: Tier) -> Case {
         "C06" | "C07" | "C08" | "C09" | "C10" => history::gen(prop, seed, index, tier),
         "C04" => fault::gen(prop, seed, index, tier),
         "C11" => inputs::gen(prop, seed, index, tier),
+        "C18" => fuzz::gen(prop, seed, index, tier),
         "C17" => shell::gen(prop, seed, index, tier),
         _ => panic!("unknown property {prop}"),
     }
@@ -62,6 +65,7 @@ pub fn run_case(case: &Case, ctx: &mut Ctx) -> CaseOutcome {
         "C06" | "C07" | "C08" | "C09" | "C10" => history::run(case, ctx),
         "C04" => fault::run(case, ctx),
         "C11" => inputs::run(case, ctx),
+        "C18" => fuzz::run(case, ctx),
         "C17" => shell::run(case, ctx),
         p => {
             let mut o = CaseOutcome::default();
@@ -86,6 +90,7 @@ pub fn rule(prop: &str) -> &'static str {
         "C04" => "case = one cell of the grid {17 fault kinds} x {leaf, middle, root, sibling, outside the closure} x {modes in which the fault is meaningful}, instantiated on a seeded DAG project and run under a seeded schedule (2 schedules per instance); every 8th case is repeated through the real txtpp binary. Every case is non-trivial (carries a fault); distinct = distinct (project, fault, action lists).",
         "C11" => "case = (generated tree of depth <= 3 with the three source-name shapes, dotted stems, look-alikes and a directory with a txtpp-like name; input list of directories / files by either name / ./ and ../ forms / absolute paths / duplicates / missing targets; recursive flag; base directory equal to or different from the process cwd; build from an output-free tree or clean of a fully built tree; seeded schedule over scan and preprocess tasks). Non-trivial = at least two sources expected to be processed; distinct = distinct (tree, config, action list).",
         "C17" => "case = swarm draw of (1-3 sources at depth 0-3 below the base directory; process cwd = base / ancestor / unrelated; base given absolute or relative; shell default / bash -c / `printf %s\\n`; entry point library under the controller or the real binary; variant env (pwd, TXTPP_FILE), argv (random single/multi-line commands shown by the configured shell), status (exit codes, signals), cli-guard (TXTPP_FILE preset)). Every case is non-trivial; distinct = distinct (project, config, action list).",
+        "C18" => "case = generated project (cyclic graphs included) whose sources, include targets and pre-existing generated files are mutated at token level (directive fragments, prefixes, Unicode blanks, tag names, path fragments) and byte level (invalid UTF-8, NUL, lone CR, deleted newlines, 256 KiB lines, empty files), run in one or two modes with num_threads in 0..16, recursion on/off, shell in {echo, false, non-existent} under a seeded schedule. Non-trivial = at least two pool tasks; distinct = distinct (project bytes, config, action list).",
         "C06" => "case = history (build; verify; one disturbance: single-byte tamper / insert / delete / append / truncate / remove of an output in or outside the closure, trailing-newline flag flip, or source edit; verify), every invocation under its own seeded schedule. Non-trivial = a verify that must fail; distinct = distinct (project, history, action lists).",
         "C07" => "case = history (optional build; optional removal of generated files; clean; clean again) on projects with and without directive errors, every invocation under a seeded schedule, whole-tree snapshots before/after. Every clean run is non-trivial; distinct = distinct (project, history, action lists, op index).",
         "C08" => "case = history ending in a build whose result is compared with the same build (same schedule seed) from a pristine tree; pre-states: every generated path independently absent/stale/empty/prefix/random (valid and invalid UTF-8); build-build; needed-build; crash image at a seeded scheduler step with files of the interrupted action torn (old/empty/prefix/full), optionally a needed-build on the image. distinct = distinct (project, history, action lists).",
@@ -149,6 +154,7 @@ pub fn expected_probes(prop: &str) -> &'static [&'static str] {
         "C04" => &["fault.fired.F1-tag-while-listening", "fault.fired.F2-command-fails-after-deps", "fault.fired.F3-include-invalid-utf8", "fault.fired.F4-source-invalid-utf8", "fault.fired.F5a-output-is-directory", "fault.fired.F5b-output-dangling-symlink", "fault.fired.F6-output-dev-full", "probe.F6_enospc_surfaced", "fault.fired.F7a-temp-parent-missing", "fault.fired.F7b-temp-target-is-directory", "fault.fired.F7c-temp-target-unwritable", "fault.fired.F9-tampered-output", "c04.cli_runs", "c04.ok_runs_checked_against_reference", "probe.error_with_tasks_in_flight_drop_drains"],
         "C11" => &["c11.mode.build", "c11.mode.clean", "c11.base_differs_from_cwd", "c11.absolute_input", "c11.dotdot_input", "c11.unresolvable_inputs", "c11.successful_runs"],
         "C17" => &["c17.variant.env", "c17.variant.argv", "c17.variant.status", "c17.cli_guard_checked", "c17.cli_env_checked", "c17.cwd.base", "c17.cwd.ancestor", "c17.cwd.unrelated", "c17.base.relative", "c17.depth.0", "c17.depth.3", "c17.shell.configured"],
+        "C18" => &["c18.mode.build", "c18.mode.needed", "c18.mode.verify", "c18.mode.clean", "c18.threads.0", "c18.threads.16", "c18.cases_with_invalid_utf8", "c18.cases_with_nul", "c18.cases_with_huge_line"],
         "C06" => &["c06.verify_expected_ok", "c06.verify_expected_err", "fault.F9_tamper.Flip", "fault.F9_tamper.Truncate", "fault.F9_tamper.Remove", "fault.F9_tamper.Append"],
         "C07" => &["c07.exact_restoration_checked"],
         "C08" => &["fault.F11_crash_images", "probe.crash_image_with_task_in_flight", "fault.F11_torn_files", "fault.F10_prestate.invalid_utf8", "c08.variant.build-build", "c08.variant.needed-build"],
